@@ -168,3 +168,6 @@ Definition get_timeout_code : list dstmt :=
 (* driver/generic/sendwithcallbacks.go Callback.check *)
 Definition callback_check_code : list dstmt :=
   [DIf (DAtom "c.Insensitive") [DAssign "b" "bytes.ToLower(b)"] []; DIf (DAnd (DAnd (DNot (DEq "c.Contains" """""")) (DAtom "bytes.Contains(b, c.contains())")) (DNot (DAnd (DNot (DEq "c.NotContains" """""")) (DAtom "bytes.Contains(b, c.notContains())")))) [DReturn "true"] []; DIf (DAnd (DAnd (DNot (DEq "c.ContainsRe" "nil")) (DAtom "c.ContainsRe.Match(b)")) (DNot (DAnd (DNot (DEq "c.NotContains" """""")) (DAtom "bytes.Contains(b, c.notContains())")))) [DReturn "true"] []; DReturn "false"].
+(* transport/telnet.go Telnet.handleControlCharResponse *)
+Definition telnet_handle_code : list dstmt :=
+  [DIf (DEq "len(ctrlBuf)" "0") [DIf (DNot (DEq "c" "iac")) [DAssign "t.initialBuf" "append(t.initialBuf, c)"] [DAssign "ctrlBuf" "append(ctrlBuf, c)"]] [DIf (DAnd (DEq "len(ctrlBuf)" "1") (DAtom "util.ByteIsAny(c, []byte{do, dont, will, wont})")) [DAssign "ctrlBuf" "append(ctrlBuf, c)"] [DIf (DEq "len(ctrlBuf)" "1") [DIf (DEq "c" "iac") [DAssign "t.initialBuf" "append(t.initialBuf, c)"] []; DAssign "ctrlBuf" "make([]byte, 0)"] [DIf (DEq "len(ctrlBuf)" "2") [DAssign "cmd" "ctrlBuf[1:2][0]"; DAssign "ctrlBuf" "make([]byte, 0)"; DIf (DAnd (DEq "cmd" "do") (DEq "c" "sga")) [DCall "t.c.Write([]byte{iac, will, c})"] [DIf (DAtom "util.ByteIsAny(cmd, []byte{do, dont})") [DCall "t.c.Write([]byte{iac, wont, c})"] [DIf (DEq "cmd" "will") [DCall "t.c.Write([]byte{iac, do, c})"] [DIf (DEq "cmd" "wont") [DCall "t.c.Write([]byte{iac, dont, c})"] []]]]; DIf (DNot (DEq "writeErr" "nil")) [DReturn "nil, writeErr"] []] []]]]; DReturn "ctrlBuf, nil"].
